@@ -100,6 +100,7 @@ Section Final.
     - apply ref_LineProg; auto.
     - apply ref_LineEntries; auto.
     - apply ref_CFI; auto.
+    - apply ref_CFIDecoded; auto.
     - apply ref_NewIterCUs; auto.
     - apply ref_NewIterDIEs; auto.
     - apply ref_NewIterChildren; auto.
@@ -162,6 +163,12 @@ Section Final.
     destruct (step_refines _ _ o (Inv_init F n) (frames_rel_init n) Ho) as (Eb & _).
     rewrite (is_query_spec F _ o Hq) in Eb. exact Eb.
   Qed.
+
+  (* in particular the decoded call-frame table of an entry does not depend on which entries of the list were
+     decoded before (an FDE decodes its CIE on the way; a CIE may have been decoded by any of its FDEs) *)
+  Corollary cfi_decoded_after_history n h eh i : forallb (op_ok F) (h ++ [CFIDecoded eh i]) = true ->
+    snd (step P fuel (fst (run P fuel (init_state n) h)) (CFIDecoded eh i)) = query_spec F (CFIDecoded eh i).
+  Proof. intros Hok. apply (query_after_history n h (CFIDecoded eh i) Hok eq_refl). Qed.
 
   (* repeated identical queries return equal results, whatever happens in between *)
   Theorem repeated_queries_equal n h1 h2 o :
